@@ -124,7 +124,17 @@ func loadAbsVal(ex *absint.Exec, c *absint.CallCtx, v absint.Val, i int, srt sym
 	case *absint.Ptr:
 		return loadAbsPtr(ex, c, x, srt)
 	case *absint.Choice:
-		return sym.Ite(x.Cond, loadAbsVal(ex, c, c.St.Resolve(x.A), i, srt), loadAbsVal(ex, c, c.St.Resolve(x.B), i, srt))
+		a, b := c.St.Resolve(x.A), c.St.Resolve(x.B)
+		// a nil alternative would be a nil dereference: record the panic and continue with the other alternative
+		if _, isNil := a.(absint.Nil); isNil {
+			ex.PanicIf(c, x.Cond, "nil pointer dereference")
+			return loadAbsVal(ex, c, b, i, srt)
+		}
+		if _, isNil := b.(absint.Nil); isNil {
+			ex.PanicIf(c, sym.Not(x.Cond), "nil pointer dereference")
+			return loadAbsVal(ex, c, a, i, srt)
+		}
+		return sym.Ite(x.Cond, loadAbsVal(ex, c, a, i, srt), loadAbsVal(ex, c, b, i, srt))
 	}
 	ex.Failf("%s: argument %d is not a pointer: %s", c.Name, i, absint.ValString(v))
 	return sym.Fresh(srt, "bad", 0)
